@@ -17,6 +17,8 @@ import (
 	lockertypes "github.com/comdex-official/comdex/x/locker/types"
 	markettypes "github.com/comdex-official/comdex/x/market/types"
 
+	chain "github.com/comdex-official/comdex/app"
+
 	"vh/sim"
 )
 
@@ -91,7 +93,7 @@ type netFeeArg struct {
 	Fee   sdk.Int `json:"fee"`
 }
 
-type cfgFn func(c *Chain, raw json.RawMessage) error
+type cfgFn func(a *chain.App, ctx sdk.Context, raw json.RawMessage) error
 
 func dec[T any](raw json.RawMessage) (T, error) {
 	var v T
@@ -100,139 +102,139 @@ func dec[T any](raw json.RawMessage) (T, error) {
 }
 
 var cfgKinds = map[string]cfgFn{
-	"cfg.asset": func(c *Chain, raw json.RawMessage) error {
+	"cfg.asset": func(a *chain.App, ctx sdk.Context, raw json.RawMessage) error {
 		v, err := dec[assettypes.Asset](raw)
 		if err != nil {
 			return err
 		}
-		return c.App.AssetKeeper.AddAssetRecords(c.Ctx, v)
+		return a.AssetKeeper.AddAssetRecords(ctx, v)
 	},
-	"cfg.app": func(c *Chain, raw json.RawMessage) error {
+	"cfg.app": func(a *chain.App, ctx sdk.Context, raw json.RawMessage) error {
 		v, err := dec[assettypes.AppData](raw)
 		if err != nil {
 			return err
 		}
-		return c.App.AssetKeeper.AddAppRecords(c.Ctx, v)
+		return a.AssetKeeper.AddAppRecords(ctx, v)
 	},
-	"cfg.pair": func(c *Chain, raw json.RawMessage) error {
+	"cfg.pair": func(a *chain.App, ctx sdk.Context, raw json.RawMessage) error {
 		v, err := dec[assettypes.Pair](raw)
 		if err != nil {
 			return err
 		}
-		return c.App.AssetKeeper.AddPairsRecords(c.Ctx, v)
+		return a.AssetKeeper.AddPairsRecords(ctx, v)
 	},
-	"cfg.extpair": func(c *Chain, raw json.RawMessage) error {
+	"cfg.extpair": func(a *chain.App, ctx sdk.Context, raw json.RawMessage) error {
 		v, err := dec[bindings.MsgAddExtendedPairsVault](raw)
 		if err != nil {
 			return err
 		}
-		return c.App.AssetKeeper.WasmAddExtendedPairsVaultRecords(c.Ctx, &v)
+		return a.AssetKeeper.WasmAddExtendedPairsVaultRecords(ctx, &v)
 	},
-	"cfg.collector": func(c *Chain, raw json.RawMessage) error {
+	"cfg.collector": func(a *chain.App, ctx sdk.Context, raw json.RawMessage) error {
 		v, err := dec[bindings.MsgSetCollectorLookupTable](raw)
 		if err != nil {
 			return err
 		}
-		return c.App.CollectorKeeper.WasmSetCollectorLookupTable(c.Ctx, &v)
+		return a.CollectorKeeper.WasmSetCollectorLookupTable(ctx, &v)
 	},
-	"cfg.aucmap": func(c *Chain, raw json.RawMessage) error {
+	"cfg.aucmap": func(a *chain.App, ctx sdk.Context, raw json.RawMessage) error {
 		v, err := dec[bindings.MsgSetAuctionMappingForApp](raw)
 		if err != nil {
 			return err
 		}
-		return c.App.CollectorKeeper.WasmSetAuctionMappingForApp(c.Ctx, &v)
+		return a.CollectorKeeper.WasmSetAuctionMappingForApp(ctx, &v)
 	},
-	"cfg.locker.whitelist": func(c *Chain, raw json.RawMessage) error {
+	"cfg.locker.whitelist": func(a *chain.App, ctx sdk.Context, raw json.RawMessage) error {
 		v, err := dec[lockertypes.MsgAddWhiteListedAssetRequest](raw)
 		if err != nil {
 			return err
 		}
-		_, err = c.App.LockerKeeper.AddWhiteListedAsset(c.Ctx, &v)
+		_, err = a.LockerKeeper.AddWhiteListedAsset(ctx, &v)
 		return err
 	},
-	"cfg.lend.rates": func(c *Chain, raw json.RawMessage) error {
+	"cfg.lend.rates": func(a *chain.App, ctx sdk.Context, raw json.RawMessage) error {
 		v, err := dec[lendtypes.AssetRatesParams](raw)
 		if err != nil {
 			return err
 		}
-		return c.App.LendKeeper.AddAssetRatesParams(c.Ctx, v)
+		return a.LendKeeper.AddAssetRatesParams(ctx, v)
 	},
-	"cfg.lend.poolpairs": func(c *Chain, raw json.RawMessage) error {
+	"cfg.lend.poolpairs": func(a *chain.App, ctx sdk.Context, raw json.RawMessage) error {
 		v, err := dec[lendtypes.AssetRatesPoolPairs](raw)
 		if err != nil {
 			return err
 		}
-		return c.App.LendKeeper.AddAssetRatesPoolPairs(c.Ctx, v)
+		return a.LendKeeper.AddAssetRatesPoolPairs(ctx, v)
 	},
-	"cfg.lend.aucparams": func(c *Chain, raw json.RawMessage) error {
+	"cfg.lend.aucparams": func(a *chain.App, ctx sdk.Context, raw json.RawMessage) error {
 		v, err := dec[lendtypes.AuctionParams](raw)
 		if err != nil {
 			return err
 		}
-		return c.App.LendKeeper.AddAuctionParamsData(c.Ctx, v)
+		return a.LendKeeper.AddAuctionParamsData(ctx, v)
 	},
-	"cfg.liqv2.whitelist": func(c *Chain, raw json.RawMessage) error {
+	"cfg.liqv2.whitelist": func(a *chain.App, ctx sdk.Context, raw json.RawMessage) error {
 		v, err := dec[liqv2types.LiquidationWhiteListing](raw)
 		if err != nil {
 			return err
 		}
-		c.App.NewliqKeeper.SetLiquidationWhiteListing(c.Ctx, v)
+		a.NewliqKeeper.SetLiquidationWhiteListing(ctx, v)
 		return nil
 	},
-	"cfg.aucv2.params": func(c *Chain, raw json.RawMessage) error {
+	"cfg.aucv2.params": func(a *chain.App, ctx sdk.Context, raw json.RawMessage) error {
 		v, err := dec[auctionsv2types.AuctionParams](raw)
 		if err != nil {
 			return err
 		}
-		c.App.NewaucKeeper.SetAuctionParams(c.Ctx, v)
+		a.NewaucKeeper.SetAuctionParams(ctx, v)
 		return nil
 	},
-	"cfg.aucv1.params": func(c *Chain, raw json.RawMessage) error {
+	"cfg.aucv1.params": func(a *chain.App, ctx sdk.Context, raw json.RawMessage) error {
 		v, err := dec[bindings.MsgAddAuctionParams](raw)
 		if err != nil {
 			return err
 		}
-		return c.App.AuctionKeeper.AddAuctionParams(c.Ctx, &v)
+		return a.AuctionKeeper.AddAuctionParams(ctx, &v)
 	},
-	"cfg.liqv1.whitelist": func(c *Chain, raw json.RawMessage) error {
+	"cfg.liqv1.whitelist": func(a *chain.App, ctx sdk.Context, raw json.RawMessage) error {
 		v, err := dec[uint64](raw)
 		if err != nil {
 			return err
 		}
-		return c.App.LiquidationKeeper.WasmWhitelistAppIDLiquidation(c.Ctx, v)
+		return a.LiquidationKeeper.WasmWhitelistAppIDLiquidation(ctx, v)
 	},
-	"cfg.esm.params": func(c *Chain, raw json.RawMessage) error {
+	"cfg.esm.params": func(a *chain.App, ctx sdk.Context, raw json.RawMessage) error {
 		v, err := dec[bindings.MsgAddESMTriggerParams](raw)
 		if err != nil {
 			return err
 		}
-		return c.App.EsmKeeper.AddESMTriggerParamsForApp(c.Ctx, &v)
+		return a.EsmKeeper.AddESMTriggerParamsForApp(ctx, &v)
 	},
 	// environment: the oracle. Band IBC results are the environment of the chain; the harness stubs them with the
 	// keepers' own setters (as the repository tests do).
-	"env.price": func(c *Chain, raw json.RawMessage) error {
+	"env.price": func(a *chain.App, ctx sdk.Context, raw json.RawMessage) error {
 		v, err := dec[priceArg](raw)
 		if err != nil {
 			return err
 		}
-		c.App.MarketKeeper.SetTwa(c.Ctx, markettypes.TimeWeightedAverage{AssetID: v.Asset, ScriptID: 12, Twa: v.Twa,
+		a.MarketKeeper.SetTwa(ctx, markettypes.TimeWeightedAverage{AssetID: v.Asset, ScriptID: 12, Twa: v.Twa,
 			CurrentIndex: 0, IsPriceActive: v.Active, PriceValue: []uint64{v.Twa}})
 		return nil
 	},
-	"env.band": func(c *Chain, raw json.RawMessage) error {
+	"env.band": func(a *chain.App, ctx sdk.Context, raw json.RawMessage) error {
 		v, err := dec[bandArg](raw)
 		if err != nil {
 			return err
 		}
-		c.App.BandoracleKeeper.SetOracleValidationResult(c.Ctx, v.OK)
+		a.BandoracleKeeper.SetOracleValidationResult(ctx, v.OK)
 		return nil
 	},
-	"env.netfee": func(c *Chain, raw json.RawMessage) error {
+	"env.netfee": func(a *chain.App, ctx sdk.Context, raw json.RawMessage) error {
 		v, err := dec[netFeeArg](raw)
 		if err != nil {
 			return err
 		}
-		return c.App.CollectorKeeper.SetNetFeeCollectedData(c.Ctx, v.App, v.Asset, v.Fee)
+		return a.CollectorKeeper.SetNetFeeCollectedData(ctx, v.App, v.Asset, v.Fee)
 	},
 }
 
@@ -245,22 +247,27 @@ func CfgKindNames() []string {
 	return ks
 }
 
-// Exec executes one step on the open block and records its result. Config steps run on a cache-wrapped context
-// written back only on success (same atomicity as a message).
-func (c *Chain) Exec(st Step) (res TxRes) {
+// Exec executes one step on the open block and records its result.
+func (c *Chain) Exec(st Step) TxRes {
+	if !c.Open {
+		panic("Exec on a closed chain")
+	}
+	return ExecOn(c.App, c.Ctx, st)
+}
+
+// ExecOn executes one step on ctx: messages through the router with baseapp's atomicity (sim.Deliver), config /
+// environment steps on a cache-wrapped context written back only on success.
+func ExecOn(app *chain.App, ctx sdk.Context, st Step) (res TxRes) {
 	res = TxRes{Kind: st.Kind, Tag: st.Tag}
+	gm := sdk.NewInfiniteGasMeter()
 	if st.Kind == "msg" {
 		var m sdk.Msg
-		if err := c.App.AppCodec().UnmarshalInterfaceJSON(st.Obj, &m); err != nil {
+		if err := app.AppCodec().UnmarshalInterfaceJSON(st.Obj, &m); err != nil {
 			res.Err = "decode: " + err.Error()
 			res.Code = "decode"
 			return
 		}
-		gm := sdk.NewInfiniteGasMeter()
-		saved := c.Ctx
-		c.Ctx = c.Ctx.WithGasMeter(gm)
-		r := sim.Deliver(c.App, c.Ctx, m)
-		c.Ctx = saved
+		r := sim.Deliver(app, ctx.WithGasMeter(gm), m)
 		res.OK, res.Code, res.Err, res.Data = r.OK, r.Code, r.Err, hashBytes(r.Data)
 		if r.Panic {
 			res.Code = "panic"
@@ -273,18 +280,15 @@ func (c *Chain) Exec(st Step) (res TxRes) {
 		res.Err, res.Code = "unknown step kind "+st.Kind, "unknown"
 		return
 	}
-	saved := c.Ctx
-	cctx, write := c.Ctx.CacheContext()
-	gm := sdk.NewInfiniteGasMeter()
-	c.Ctx = cctx.WithGasMeter(gm)
+	cctx, write := ctx.CacheContext()
+	cctx = cctx.WithGasMeter(gm)
 	defer func() {
-		c.Ctx = saved
 		if r := recover(); r != nil {
 			res.OK, res.Code, res.Err = false, "panic", fmt.Sprint(r)
 		}
 		res.Gas = int64(gm.GasConsumed())
 	}()
-	if err := fn(c, st.Obj); err != nil {
+	if err := fn(app, cctx, st.Obj); err != nil {
 		res.Err, res.Code = err.Error(), "cfgerr"
 		return
 	}
